@@ -433,6 +433,14 @@ def main(ctx):
     ctx.extra['mir'] = info
     ctx.bounds.append('all paths of validate / verify_signature_with_verifier / parse_jwk / verify_decoded_signature; '
                       'validate_decoded_credential evaluated over all 2^5 unit outcomes x fail-fast mode x option presence')
-    ctx.outside += ['JSON parsing of claims/headers', 'cryptographic verification', 'check_subject_holder_relationship body (iterator code over the subjects)', 'CoreDocument::resolve_method (C04)']
+    ctx.outside += ['JSON parsing of claims/headers', 'cryptographic verification', 'check_subject_holder_relationship body (iterator code over the subjects)', ]
     guarded(ctx, 'credential validation audit', 'M', lambda: run(ctx, prog))
     guarded(ctx, 'validation unit bodies', 'M', lambda: units(ctx, prog))
+    # the kid (a typed DIDUrl) is resolved inside the issuer document within the configured scope: C04's obligations on the query
+    # conversion and on scoped resolution, re-used
+    import c04
+
+    def method_lookup():
+        prog2, info2 = load(c04.CRATES, src_only=c04.SRC)
+        c04.run(ctx, prog2, only=r'^DIDUrlQuery::from<|^resolve_method/|^resolve_method_ref/')
+    guarded(ctx, 'method lookup in the issuer document', 'M', method_lookup)
